@@ -298,7 +298,9 @@ func TestVerif_C51(t *testing.T) {
 		{"short-hash", func(verifC51Archive) string { return h0[:62] + "  " + n0 + "\n" }},
 		{"empty-hash", func(verifC51Archive) string { return "  " + n0 + "\n" }},
 		{"hash-garbage", func(verifC51Archive) string { return h0 + "zz  " + n0 + "\n" }},
-		{"for-served", func(ar verifC51Archive) string { return hb + "  " + other + "\n" + verifC51Hex(ar.data) + "  " + ar.asset + "\n" }},
+		{"for-served", func(ar verifC51Archive) string {
+			return hb + "  " + other + "\n" + verifC51Hex(ar.data) + "  " + ar.asset + "\n"
+		}},
 		{"empty-file", func(verifC51Archive) string { return "" }},
 		{"no-final-newline", func(verifC51Archive) string { return hb + "  " + other + "\n" + h0 + "  " + n0 }},
 	}
